@@ -39,7 +39,7 @@ def rand_library(r):
             nf = r.choice([0, 1, 2, 2, 3, 4, 5, 6, 7])
             ks = r.sample(KEYS, nf)
             if r.random() < 0.02:
-                ks = ks + ["k%d" % j for j in range(r.randint(10, 40))]
+                ks = ks + ["k%d" % j for j in range(r.randint(10, 40) if r.random() < 0.8 else r.randint(250, 400))]
             specs.append(["entry", r.choice(["article", "book", "x"]), "k%d_%d" % (len(specs), r.randint(0, 99)), [[x, r.choice(VALUES)] for x in ks]])
         elif k < .6:
             specs.append(["string", "s%d_%d" % (len(specs), r.randint(0, 99)), r.choice(VALUES)])
